@@ -394,6 +394,9 @@ def run(ctx, tier):
     results += page_kinds(ctx)
     results += run_length(ctx)
     results += c02.cow_free_set(ctx, rule='C05.cow.free-set')
+    import c10, c06
+    results += c10.delete_walk_guard(ctx, rule='C05.delete-walk-guard')
+    results += c06.shared_freelist(ctx, rule='C05.shared-freelist')
     import c09
     results += c09.writer_reads_after_lock(ctx, rule='C05.writer-snapshot')
     for r in results:
